@@ -420,6 +420,12 @@ func (h *FBDNSDB) ReportBackendStats() {
 	verifhook.YieldRLock("backendstats.rlock", &h.reloadMu)
 	h.reloadMu.RLock()
 	defer h.reloadMu.RUnlock()
+	select {
+	case <-h.done:
+		// the DB has been closed, its backend must not be touched any more
+		return
+	default:
+	}
 	for k, v := range h.dnsdb.GetStats() {
 		h.stats.ResetCounterTo(k, v)
 	}
